@@ -39,6 +39,8 @@ FS0 == [len |-> 0, openedLen |-> 0, durMeta |-> 1, volMeta |-> 0, unsynced |-> {
 VerPages(v) == tree[v] \cup flp[v]
 Visible == VerPages(cur) \cup UNION {VerPages(t) : t \in RTx(readers)}
 PP == PendPages(pend)
+FreeDisjoint == free \cap PP = {}
+NoMeta == \A p \in free \cup PP : p >= 2
 Keep(f, S) == [x \in (DOMAIN f) \cap S |-> f[x]]
 Put(f, k, v) == [x \in (DOMAIN f) \cup {k} |-> IF x = k THEN v ELSE f[x]]
 BagOf(s) == [t \in ToSet(s) |-> Cardinality({i \in 1..Len(s) : s[i] = t})]
@@ -261,6 +263,7 @@ TEndWrite ==
    /\ Expect(Cardinality(PP) = Cardinality(pend), "a page is pending twice")
    /\ Expect(E.nomap \/ PartitionOK(vhwm[cur], tree[cur], flp[cur], free, PP), "page space not partitioned after the transaction (C07)")
    /\ Expect(free \cap Visible = {}, "free page in a visible version")
+   /\ Expect(FreeDisjoint /\ NoMeta, "a page is both free and pending, or a meta page is free / pending (C09)")
    /\ Expect((w.quiet /\ ~w.rolled) => \A r \in pend : r[1] = w.txid, <<"pages of older transactions still pending although no reader was open at begin (C10)", {r \in pend : r[1] # w.txid}>>)
    /\ w' = NoW
    /\ tree' = Keep(tree, NeededVersions) /\ flp' = Keep(flp, NeededVersions)
@@ -308,10 +311,6 @@ TNext == \/ TReset \/ TReopen \/ TLoadPage \/ TLoadScan \/ TBeginRead \/ TEndRea
          \/ TDecoded \/ TStats \/ TCheck \/ TCrashProbe
 TSpec == TInit /\ [][TNext]_bvars
 
-\* state invariants evaluated after every consumed line
-FreeDisjoint == free \cap PP = {}
-NoFreeVisible == w.open \/ free \cap Visible = {}
-NoMeta == \A p \in free \cup PP : p >= 2
 
 HighWater == TLCSet(1, IF TLCGet(1) < l THEN l ELSE TLCGet(1))
 Accepted == IF TLCGet(1) = Len(Trace) + 1 THEN TRUE
